@@ -398,6 +398,8 @@ func c14(w *core.World, r *core.Report) {
 	ruleOffsetPlumbing(w, r)
 	r.Rule("R14.13", "the frontier is rebuilt from the stored snapshot (or none), never from a base made up for the journal", 1)
 	ruleRebuildFromStoredSnapshot(w, r)
+	r.Rule("R17.4", "a mode migration repoints the namespace index before it retires the old entry: a stop in between must not leave the namespace unfindable (resume point back to 'none') (shared with C17)", 2)
+	ruleMigrationOrder(w, r)
 }
 
 func ruleSaveBeforeDelete(w *core.World, r *core.Report) {
